@@ -236,6 +236,15 @@ def run(ctx):
         lim = [b'(((a{128}){2}){2}){126}', b'(((a{128}){2}){2}){127}', b'(((a{128}){2}){2}){126,}', b'((((a{128}){128}){128}){128})',
                b'(((((a{128}){128}){128}){128}){128})', b'((a{128}){128}){31}', b'((a{128}){128}){7}', b'((a{128}){128}){8}', b'(a{0}){128}',
                b'((((a{128}){128}){128}){0})', b'(((a|b){128}){64}){32}']
+        # several SATURATING siblings (each estimate = NINST) concatenated / alternated inside 0..2 further counted
+        # groups: without the saturation of every rnode_count result (also on the unrepeated-node path) 8..16 of
+        # them inside one more {128} overflow int (seeded change C11-2: negative or wrapped reservation)
+        U = b'((a{128}){128}){128}'
+        for k in (2, 3, 7, 8, 9, 12, 15, 16, 17, 20):
+            for sep in (b'', b'|'):
+                body = sep.join([U] * k)
+                for wrap in (b'(%s)', b'(%s){128}', b'((%s){128}){128}', b'((%s){2}){128}', b'(x|(%s){128})'):
+                    lim.append(wrap % body)
         ll = ['C ' + hx(q) for q in lim]
         e2 = {'PROBE_RE_MAXRES': '100000000'}
         outs = []
